@@ -31,7 +31,8 @@ func init() {
 				{Name: "doc-d4", Check: "C03", Params: wp{Type: "doc"}, Depth: 4},
 				{Name: "docarr-d4", Check: "C03", Params: wp{Type: "doc", Prefix: "arr4"}, Depth: 3},
 				{Name: "docnest-d3", Check: "C03", Params: wp{Type: "doc", Prefix: "nest3"}, Depth: 3},
-				{Name: "doc-gotypes-d3", Check: "C03", Params: wp{Type: "doc", Alpha: "gotypes"}, Depth: 3}, // fixed-size arrays, structs, pointers, typed maps as values
+				{Name: "map-tomb-d3", Check: "C03", Params: wp{Type: "map", Alpha: "rich", Prefix: "tomb"}, Depth: 3}, // (two failing transactions in a row restore from a snapshot that holds a tombstone)
+				{Name: "doc-gotypes-d3", Check: "C03", Params: wp{Type: "doc", Alpha: "gotypes"}, Depth: 3},           // fixed-size arrays, structs, pointers, typed maps as values
 			}
 		} else {
 			p.BudgetS = 3000
@@ -270,6 +271,7 @@ func init() {
 				e1runSP("doc-live-n2-d2", "doc", 2, 2, "tx", o, 1, 0, "live"),
 				e1runS("counter-n2-d3-2fails", "counter", 2, 3, "tx", o, 2, 0), // two failed transactions in one history
 				e1runSP("map-live-n2-d3-3fails", "map", 2, 3, "tx", o, 3, 0, "live"),
+				e1runSP("map-tomb-n2-d3-2fails", "map", 2, 3, "tx", o, 2, 0, "tomb"),
 				e1runSP("list-live-n2-d2-2fails", "list", 2, 2, "tx", o, 2, 0, "live"),
 				e1runSP("list-live-n2-d3", "list", 2, 3, "tx", o, 1, 0, "live"),
 				e1runSP("map-live-n2-d3", "map", 2, 3, "tx", o, 1, 0, "live"),
